@@ -110,8 +110,19 @@ def evaluate__parenthesized_expression(self: XPathToken, context: ta.ContextType
 
             if any(x.symbol == '?' and not x for x in tokens):
                 func.check_arguments_number(len(tokens))
+
+                # The fixed arguments are evaluated now, in the scope of the partial application
+                items: list[XPathToken] = [
+                    tk if tk.symbol == '?' and not tk else
+                    ValueToken(self.parser, value=tk.evaluate(context)) for tk in tokens
+                ]
+                if func.label in ('partial function', 'inline partial function'):
+                    # Fill the placeholders of the partial function, keeping its fixed arguments
+                    arguments_ = iter(items)
+                    items = [next(arguments_) if tk.symbol == '?' and not tk else tk for tk in func]
+
                 func = copy(func)
-                func[:] = tokens
+                func._items = items  # don't share the arguments with the original function
                 func.to_partial_function()
                 return func
 
